@@ -35,6 +35,8 @@ pub enum SubOp {
     /// LazyUpdate::create_entity(..).with(..).build() from inside the action
     LazyCreate(Vec<(usize, u64)>),
     Enqueue(Script),
+    /// the action itself calls world.maintain() (re-entrant): everything queued so far runs now
+    Maintain,
 }
 
 #[derive(Clone, Debug)]
@@ -69,15 +71,22 @@ pub struct Env {
     pub drivers: Arc<Vec<Box<dyn Driver>>>,
     pub registered: Arc<Mutex<Vec<bool>>>,
     pub log: Arc<Mutex<Vec<LogEntry>>>,
+    /// ids of the actions in the order in which they *started* (a re-entrant maintain nests executions)
+    pub starts: Arc<Mutex<Vec<u64>>>,
     pub mno: Arc<AtomicU64>,
 }
 
 /// Body of a queued closure: runs the scripted sub-operations on the world.
 pub fn exec_script(world: &mut World, s: Script, env: Env) {
+    env.starts.lock().unwrap().push(s.id);
     let mut res = Vec::new();
     let mut last_created: Option<Entity> = None;
     for op in s.ops {
         match op {
+            SubOp::Maintain => {
+                world.maintain();
+                res.push(SubRes::Unit);
+            }
             SubOp::LazyInsertCreated(k, p) => match last_created {
                 Some(h) => {
                     let lazy = world.read_resource::<LazyUpdate>();
@@ -188,6 +197,9 @@ struct W {
     stale_occupied_probes: u64,
     stale_probes_by_path: BTreeMap<Path, u64>,
     nested_enqueues: u64,
+    reentrant_maintains: u64,
+    pending_starts: std::collections::VecDeque<u64>,
+    pending_results: BTreeMap<u64, LogEntry>,
     lazy_on_created_in_action: u64,
     lazy_on_same_frame_reuse: u64,
     lazy_actions_run: u64,
@@ -383,8 +395,28 @@ impl W {
     /// Run the model's side of maintain's lazy phase against the execution log.
     fn model_run_queue(&mut self) -> R {
         let entries: Vec<LogEntry> = std::mem::take(&mut *self.env.log.lock().unwrap());
+        let starts: Vec<u64> = std::mem::take(&mut *self.env.starts.lock().unwrap());
+        self.pending_starts = starts.into_iter().collect();
+        self.pending_results.clear();
+        for e in entries {
+            if self.pending_results.insert(e.id, e).is_some() {
+                return Err(("C09", "a queued action was executed twice".to_string()));
+            }
+        }
+        self.run_queue_inner()?;
+        if let Some(extra) = self.pending_starts.pop_front() {
+            return Err(("C09", format!("action #{} ran although it was not (or no longer) queued: executed twice?", extra)));
+        }
+        if let Some((id, _)) = self.pending_results.iter().next() {
+            return Err(("C09", format!("action #{} left an execution record that matches no queued action", id)));
+        }
+        Ok(())
+    }
+
+    /// Drain the model queue in FIFO order against the recorded start order; a `Maintain` step inside an
+    /// action re-enters this function (everything queued so far runs before the action continues).
+    fn run_queue_inner(&mut self) -> R {
         let mno = self.env.mno.load(Ordering::SeqCst);
-        let mut it = entries.into_iter();
         while let Some(a) = self.queue.pop_front() {
             self.lazy_actions_run += 1;
             match a {
@@ -404,18 +436,20 @@ impl W {
                     }
                 }
                 Action::Script { id } => {
-                    let entry = match it.next() {
-                        Some(e) => e,
-                        None => {
-                            return Err(("C09", format!("queued action #{} did not run during this maintain", id)))
+                    match self.pending_starts.pop_front() {
+                        Some(s) if s == id => {}
+                        Some(s) => {
+                            return Err((
+                                "C09",
+                                format!("queued actions ran out of order: expected action #{} next, but #{} ran", id, s),
+                            ))
                         }
-                    };
-                    if entry.id != id {
-                        return Err((
-                            "C09",
-                            format!("queued actions ran out of order: expected action #{} next, but #{} ran", id, entry.id),
-                        ));
+                        None => return Err(("C09", format!("queued action #{} did not run during this maintain", id))),
                     }
+                    let entry = match self.pending_results.remove(&id) {
+                        Some(e) => e,
+                        None => return Err(("C09", format!("queued action #{} started but never finished", id))),
+                    };
                     if entry.maintain_no != mno {
                         return Err(("C09", format!("action #{} ran outside of maintain #{}", id, mno)));
                     }
@@ -428,9 +462,6 @@ impl W {
                     }
                 }
             }
-        }
-        if let Some(extra) = it.next() {
-            return Err(("C09", format!("action #{} ran although it was not (or no longer) queued: executed twice?", extra.id)));
         }
         Ok(())
     }
@@ -474,6 +505,12 @@ impl W {
                 }
             }
             (SubOp::CreateAtomic, SubRes::Created(h, _)) => self.on_created(h, true)?,
+            (SubOp::Maintain, SubRes::Unit) => {
+                self.reentrant_maintains += 1;
+                let d = self.model.merge();
+                self.expect_destroyed("re-entrant maintain", &d)?;
+                self.run_queue_inner()?;
+            }
             (SubOp::LazyCreate(with), SubRes::Created(h, snaps)) => {
                 self.on_created(h, true)?;
                 for ((k, _), s) in with.iter().zip(snaps) {
@@ -898,7 +935,12 @@ impl W {
         let d = self.model.merge();
         self.expect_destroyed("maintain", &d)?;
         self.model_run_queue()?;
-        self.check_all(true)?;
+        if let Err((p0, m)) = self.check_all(true) {
+            // what a maintain with queued actions leaves behind is C09's subject (deferred work of the
+            // actions themselves takes effect at the *next* maintain, with its purge)
+            let p1 = if had_queue && self.prop == "C09" && (p0 == "C02" || p0 == "C05") { "C09" } else { p0 };
+            return Err((p1, m));
+        }
         // a second maintain must find nothing left over
         if had_queue && self.rng.chance(1, 2) {
             self.env.mno.fetch_add(1, Ordering::SeqCst);
@@ -941,7 +983,7 @@ impl W {
         let mut ops = Vec::new();
         let regs = self.registered_storages();
         for _ in 0..n {
-            let c = self.rng.weighted(&[30, 10, 10, 10, 10, 12, 8, 8, if depth < 2 { 12 } else { 0 }, 8, 6, 6]);
+            let c = self.rng.weighted(&[30, 10, 10, 10, 10, 12, 8, 8, if depth < 2 { 12 } else { 0 }, 8, 6, 6, if depth == 0 { 3 } else { 0 }]);
             let h = self.pick_mixed();
             if (c == 9 || c == 10) && !ops.iter().any(|o| matches!(o, SubOp::CreateAtomic | SubOp::CreateNow(_) | SubOp::LazyCreate(_))) {
                 // give the dynamic target something to point at: an entity created by this very action
@@ -978,6 +1020,7 @@ impl W {
                     let with = self.with_list(2);
                     SubOp::LazyCreate(with)
                 }
+                (12, _) => SubOp::Maintain,
                 _ => SubOp::CreateAtomic,
             };
             ops.push(op);
@@ -1131,6 +1174,7 @@ fn run_case(rep: &mut Report, case: u64) {
         drivers: Arc::new(drivers),
         registered: Arc::new(Mutex::new(vec![false; nst])),
         log: Arc::new(Mutex::new(Vec::new())),
+        starts: Arc::new(Mutex::new(Vec::new())),
         mno: Arc::new(AtomicU64::new(0)),
     };
     let long = cfg.extra_u64("long", 0) == 1 || rng.chance(1, 50);
@@ -1155,6 +1199,9 @@ fn run_case(rep: &mut Report, case: u64) {
         stale_occupied_probes: 0,
         stale_probes_by_path: BTreeMap::new(),
         nested_enqueues: 0,
+        reentrant_maintains: 0,
+        pending_starts: std::collections::VecDeque::new(),
+        pending_results: BTreeMap::new(),
         lazy_on_created_in_action: 0,
         lazy_on_same_frame_reuse: 0,
         lazy_actions_run: 0,
@@ -1314,6 +1361,7 @@ fn run_case(rep: &mut Report, case: u64) {
     rep.bump("creations_after_failing_batch", w.creations_after_failing_batch);
     rep.bump("stale_probes_on_occupied_index", w.stale_occupied_probes);
     rep.bump("nested_enqueues", w.nested_enqueues);
+    rep.bump("reentrant_maintains_inside_actions", w.reentrant_maintains);
     rep.bump("lazy_inserts_on_entities_created_inside_an_action", w.lazy_on_created_in_action);
     rep.bump("lazy_builder_on_reused_index_same_frame", w.lazy_on_same_frame_reuse);
     rep.bump("lazy_actions_run", w.lazy_actions_run);
